@@ -11,6 +11,11 @@ Kernels (DESIGN.md section 4, C16):
       MainProgram.execute(['suite', ...]); only the case processor is a recording stub.  Which reference each
       [suites] / [cases] line holds is a symbolic selector into a catalogue of lines; the order in which
       pathlib's glob yields its matches is symbolic (environment non-determinism).
+      K2 glob family (k2_glob, harness/_C16_glob.py): ONE reference line built from the constructs of the documented
+      pattern syntax - directory part x first character x second character of the file name, each a literal or one of
+      `?`, `*`, `[seq]`, `[!seq]`, `[a-b]`, `[?]`, `*/`, `**/` ... -, unquoted / quoted with ' or ", relative or
+      ABSOLUTE (the scratch directory of the fixture, known at run time), in [cases] or [suites] of the root suite or of a
+      suite in a sub directory; every selector symbolic, made concrete, then the real program runs untraced.
   K3  whole program, nothing stubbed but the sandbox directory names: real case files with real instructions,
       one per outcome the real program can produce, both reporters.
 
@@ -25,6 +30,9 @@ Regions (switched on by known_findings.json while a defect is listed there; all 
   overlong-file-name              a plain reference longer than NAME_MAX: OSError escaped (K2 long-name; fixed c3cda56)
   suite-file-not-utf8             a suite file that is not valid UTF-8: UnicodeDecodeError escaped (K2 broken; fixed 6de5e53)
   junit-control-characters        JUnit report not well-formed when a message holds a control character (K3; fixed a842fe5)
+  glob-adjacent-stars             an unquoted reference with two adjacent `*` inside a path component (`**.case`): pathlib's
+                                  ValueError escapes (K2 glob family)
+  (an ABSOLUTE glob pattern made pathlib raise NotImplementedError - fixed ca6d079; the K2 glob family covers it)
 """
 from typing import List
 
@@ -32,6 +40,7 @@ from vsym import ob
 from vsym.ob import Ob
 
 from harness import _C16_lib as L
+from harness import _C16_glob as G
 
 PROPERTY = 'C16'
 
@@ -41,6 +50,7 @@ REGION_NOTADIR = 'reference-through-regular-file'
 REGION_OVERLONG = 'overlong-file-name'
 REGION_NOT_UTF8 = 'suite-file-not-utf8'
 REGION_JUNIT_CTRL = 'junit-control-characters'
+REGION_ADJACENT_STARS = 'glob-adjacent-stars'
 
 REAL_K1 = (
     'exactly_lib.test_suite.processing.SuitesExecutor',
@@ -499,6 +509,121 @@ OUTSIDE_K2 = (
     'the same case file listed by two different suites counts as two listed cases (each is processed once per listing suite)',
 )
 
+
+# --------------------------------------------------------------------------- K2, glob family
+
+def _glob_dims(c):
+    """the concrete values each selector ranges over: (directory parts, first chars, second chars, places, quotings,
+    absolute?, glob orders).  With `pats` in the case - a list of (directory part, first char, second char) - the first
+    selector ranges over that list and the next two are pinned to 0."""
+    if 'pats' in c:
+        first3 = (list(range(len(c['pats']))), [0], [0])
+    else:
+        first3 = (c.get('ds', list(range(len(G.DIRP)))), c.get('as', list(range(len(G.LETTER)))),
+                  c.get('bs', list(range(len(G.DIGIT)))))
+    return first3 + (c.get('ws', list(range(len(G.WHERE)))), c.get('qs', list(range(len(G.QUOTE)))),
+                     c.get('abs', [0, 1]), list(range(c.get('ng', 2))))
+
+
+def _glob_args(c, d, a, b, w, q, ab, g):
+    """the concrete constructs selected"""
+    d, a, b, w, q, ab, g = [ob.pick(dim, v) for v, dim in zip((d, a, b, w, q, ab, g), _glob_dims(c))]
+    if 'pats' in c:
+        d, a, b = c['pats'][d]
+    return d, a, b, w, q, ab, g
+
+
+def _pre_k2_glob(d: int, a: int, b: int, w: int, q: int, ab: int, g: int) -> bool:
+    c = ob.case()
+    for v, dim in zip((d, a, b, w, q, ab, g), _glob_dims(c)):
+        if not (0 <= v < len(dim)):
+            return False
+    if ob.excluded(REGION_ADJACENT_STARS):
+        _d, av, bv, _w, qv, _ab, _g = _glob_args(c, d, a, b, w, q, ab, g)
+        if qv == 0 and G.LETTER[av].endswith('*') and G.DIGIT[bv].startswith('*'):
+            return False
+    return True
+
+
+def k2_glob(d: int, a: int, b: int, w: int, q: int, ab: int, g: int) -> bool:
+    """
+    pre: _pre_k2_glob(d, a, b, w, q, ab, g)
+    post: _
+    """
+    c = ob.case()
+    d, a, b, w, q, ab, g = _glob_args(c, d, a, b, w, q, ab, g)
+    junit = bool(c.get('junit'))
+    with ob.untraced():  # every selector is concrete by now
+        specs, tree, root = G.scenario(w, G.line(d, a, b, w, q, bool(ab)))
+        # seeded oracle error: the oracle does not know the character class as a pattern construct
+        order = L.expected_run(tree, specs, root, wild=('*', '?') if c.get('oracle_bug') else ('*', '?', '['))
+        obs = L.run_main_program_on_suite(tree, root, junit, G.kind_of, glob_rot=g // 2, glob_rev=(g % 2 == 1))
+        ok = L.hierarchy_ok(obs, order, root, junit, G.kind_of)
+    return ob.post(ok)
+
+
+def _one_construct():
+    """the lines with a wildcard construct in at most one of the three positions"""
+    return [(d, a, b) for d in range(len(G.DIRP)) for a in range(len(G.LETTER)) for b in range(len(G.DIGIT))
+            if G.n_wild(d, a, b) <= 1]
+
+
+def _glob_ob(name, timeout, bound, junit=False, **case):
+    c = dict(junit=junit)
+    c.update(case)
+    return Ob(name='K2:glob:' + name, fn='k2_glob', case=c, kernel='K2', timeout=timeout, selector=True,
+              expect=ob.REFUTE if case.get('oracle_bug') else ob.CONFIRM,
+              bound=bound + '; %s reporter; %s' % ('JUnit' if junit else 'progress', GLOB_FIXTURE_TEXT),
+              real=REAL_K2, stubs=(STUB_PROCESSOR_CONSTRUCTOR, STUB_PARTS, STUB_GLOB_ORDER, STUB_CLOCK, STUB_PATH_HASH),
+              outside=OUTSIDE_REPORT + OUTSIDE_K2 + OUTSIDE_GLOB,
+              entry="MainProgram.execute(['suite', '--reporter', R, FILE])")
+
+
+GLOB_FIXTURE_TEXT = ('fixture: STEM.case and STEM.suite for STEM in %r, and below sub/ in %r (a case named %s ends FAIL)'
+                     % (G.TOP_STEMS, G.SUB_STEMS, G.FAILING_CASE))
+GLOB_LINE_TEXT = ('a reference line [ABSOLUTE-DIR/] DIR-PART C1 C2 .case|.suite with DIR-PART in %r, C1 in %r, C2 in %r'
+                  % (G.DIRP, G.LETTER, G.DIGIT))
+OUTSIDE_GLOB = (
+    'pattern forms that are not documented: an unclosed `[`, `[]...]`, `**` that is not a whole path component '
+    '(region glob-adjacent-stars), brace expansion, `~`; hidden files; character classes of more than two members',
+    'absolute references other than below the directory of the fixture; `..` inside a pattern',
+)
+
+
+def _glob_obligations(tier: str) -> List[Ob]:
+    obs = []
+    where_all = 'standing in each of: ' + '; '.join(G.WHERE_TEXT)
+    quote_all = 'unquoted, quoted with \' and quoted with "'
+    abs_all = 'relative and absolute'
+    T = 300
+    if tier == 'quick':
+        obs.append(_glob_ob('combinations', T,
+                            'every combination of constructs: %s; unquoted, relative, %s; both orders of glob matches'
+                            % (GLOB_LINE_TEXT, G.WHERE_TEXT[0]), ws=[0], qs=[0], abs=[0]))
+        obs.append(_glob_ob('one-construct', T,
+                            '%s with a wildcard construct in at most one of the three positions; %s; %s; %s; both orders '
+                            'of glob matches' % (GLOB_LINE_TEXT, where_all, quote_all, abs_all), pats=_one_construct()))
+        obs.append(_glob_ob('one-construct:junit', T,
+                            '%s with a wildcard construct in at most one of the three positions; %s; unquoted; %s'
+                            % (GLOB_LINE_TEXT, where_all, abs_all), junit=True, pats=_one_construct(), qs=[0], ng=1))
+        obs.append(_glob_ob('absolute', T,
+                            'every combination of constructs: %s; unquoted, ABSOLUTE; %s'
+                            % (GLOB_LINE_TEXT, '; '.join(G.WHERE_TEXT[1:3])), ws=[1, 2], qs=[0], abs=[1], ng=1))
+    else:
+        for w in range(len(G.WHERE)):
+            for ab in (0, 1):
+                for junit in (False, True):
+                    obs.append(_glob_ob('combinations:%d:%s%s' % (w, 'abs' if ab else 'rel', ':junit' if junit else ''),
+                                        3 * T,
+                                        'every combination of constructs: %s; %s; %s; %s; both orders of glob matches'
+                                        % (GLOB_LINE_TEXT, quote_all, 'absolute' if ab else 'relative', G.WHERE_TEXT[w]),
+                                        junit=junit, ws=[w], abs=[ab]))
+    obs.append(_glob_ob('seeded-oracle-error', T,
+                        'seeded oracle error: the oracle takes a name whose only construct is a character class for a plain '
+                        'name', oracle_bug=True, ws=[0], qs=[0], abs=[0], ng=1, pats=_one_construct()))
+    return obs
+
+
 # --------------------------------------------------------------------------- K3
 
 REAL_K3 = REAL_K2 + (
@@ -737,7 +862,7 @@ def _k3_obligations(tier: str) -> List[Ob]:
 
 
 def obligations(tier: str) -> List[Ob]:
-    return _k1_obligations(tier) + _k2_obligations(tier) + _k3_obligations(tier)
+    return _k1_obligations(tier) + _k2_obligations(tier) + _glob_obligations(tier) + _k3_obligations(tier)
 
 
 # --------------------------------------------------------------------------- self-test (stubs and reference oracles)
